@@ -25,6 +25,8 @@ pub enum Model {
     None,
     AssertIdentity,
     ProfilingNoop,
+    /// math.sqrt(x) := x ^ 0.5 (what convert_square_root_call documents)
+    SqrtAsPow,
     /// preset a global: name and a Lua expression text evaluated in the fresh environment
     Inject(String, String),
 }
@@ -42,6 +44,7 @@ fn run(block: &crate::reflua::ast::Block, d: Dialect, fuel: i64, universal: bool
         Model::None => {}
         Model::AssertIdentity => it.install_assert_identity(),
         Model::ProfilingNoop => it.install_profiling_noops(),
+        Model::SqrtAsPow => it.sqrt_is_pow = true,
         Model::Inject(name, expr_text) => {
             if let Ok(b) = parse_block(&format!("return {}", expr_text), Mode::Luau) {
                 if let Some(v) = it.run_chunk_values(&b).and_then(|v| v.into_iter().next()) {
@@ -81,11 +84,25 @@ fn first_diff(a: &[String], b: &[String]) -> String {
 
 /// Compare the observable behaviour of `original` and `transformed`.
 pub fn compare(original: &str, transformed: &str, opts: &ExecOpts) -> Cmp {
+    let r = compare_in(original, transformed, opts, false);
+    if let Cmp::Differ { .. } = &r {
+        if !opts.both_dialects {
+            // Luau-only input: a difference that disappears under Lua 5.1's arithmetic / formatting rules depends on
+            // behaviour where the two dialects disagree, which the properties leave out
+            if let Cmp::Same = compare_in(original, transformed, opts, true) {
+                return Cmp::Discard("difference only under Luau-specific arithmetic/formatting (dialect-dependent)".into());
+            }
+        }
+    }
+    r
+}
+
+fn compare_in(original: &str, transformed: &str, opts: &ExecOpts, force_l51: bool) -> Cmp {
     let ob = match parse_block(original, Mode::Luau) {
         Ok(b) => b,
         Err(e) => return Cmp::Discard(format!("reference parser rejects the original: {}", e.msg)),
     };
-    let dialects: Vec<Dialect> = if opts.both_dialects { vec![Dialect::Luau, Dialect::L51] } else { vec![Dialect::Luau] };
+    let dialects: Vec<Dialect> = if force_l51 { vec![Dialect::L51] } else if opts.both_dialects { vec![Dialect::Luau, Dialect::L51] } else { vec![Dialect::Luau] };
     let mut originals: Vec<Outcome> = vec![];
     for d in &dialects {
         let o = run(&ob, *d, opts.fuel, opts.universal, &opts.model);
